@@ -163,6 +163,7 @@ pub fn worker(ctx: &Ctx, res: &mut ShardResult) {
         mine.push(json!({"name": f.id, "grammar": f.g.to_value()}));
         let n = match f.kind { "G1" => n1, "G2" => n2, "G4" | "G7" => 5.min(n1.max(4)), "G8" => 6.min(n1.max(4) + 1), "G10" => 4.min(n1.max(3)), _ => n3 };
         for ix in families::token_strings(f.alphabet.len(), n) {
+            if families::skip_string(f, &ix) { continue; }
             let (text, _) = text_of(f, &ix, if f.has_ws_extras { " " } else { "" });
             compare_parsers(&f.id, &merged.language, &unmerged.language, &text, res, json!({"part": "equivalence", "grammar_id": f.id, "text": crate::util::bytes_json(&text)}));
         }
